@@ -11,10 +11,6 @@ type tabEntry struct {
 }
 
 var boundsTable = map[string]tabEntry{
-	"executor.(*DepthExecutor).Execute$4/‹[]*executor.DepthExecutorResponse›[‹*executor.groupResponse›.index]": {1,
-		"positional reducer: the accumulator is made with len(groupedRequests) slots and every result carries an index drawn from lo.Range(len(groupedRequests)) — both checked by R9b (class POS-index) on every run"},
-	"executor.(*DepthExecutor).parseRespones$2/‹[]*executor.DepthExecutorResponse›[‹*executor.indexedResponse›.index]": {1,
-		"positional reducer: the accumulator is made with len(queryerResponses) slots and every result carries an index drawn from lo.Range(len(queryerResponses)) — both checked by R9b (class POS-index) on every run"},
 	"executor.(*DepthExecutor).executeRequests/‹[]*executor.ExecutionRequest›[‹int›]": {2,
 		"both index values were recorded from `range ers` in this very call (iMap.Set(i, …) and nillResps[i]) and ers is not re-sliced"},
 	"executor.ExtractValueModifyingSource/‹[]interface{}›[‹*executor.PointData›.Index]": {2,
@@ -29,8 +25,6 @@ var boundsTable = map[string]tabEntry{
 		"res[i] was made with len(p) in the enclosing iteration and j ranges over p"},
 	"pebbles.(Results).Emit/‹pebbles.Results›[0]": {1,
 		"non-batch mode: parseRequest builds exactly one request when IsBatchMode is false and the accumulator is made with len(rs.Requests)"},
-	"pebbles.(*Gateway).queryHandler$2/‹pebbles.Results›[‹*pebbles.Result›.index]": {1,
-		"acc is made with len(rs.Requests); index is the closure parameter drawn from lo.Range(len(rs.Requests)) and is carried by every returned Result (rule R13h)"},
 	"queryer.(*MultiOpQueryer).Query$1/‹[]*requests.Request›[‹int›*‹*queryer.MultiOpQueryer›.maxBatchSize:(‹int›+1)*‹*queryer.MultiOpQueryer›.maxBatchSize]": {1,
 		"taken only when (i+1)*m <= lInputs (else-branch of the test above)"},
 	"queryer.(*MultiOpQueryer).Query$2/‹[]map[string]interface{}›[(‹*queryer.chunkResponse›.Index+1)*‹*queryer.MultiOpQueryer›.maxBatchSize:]": {1,
